@@ -8,25 +8,25 @@ CLAIMED = {
          "bounds: history length, string lengths (|prefix|<=3,|uri|<=3..4,|local|<=2); validity assumptions on names listed in evidence; hash-order of sets not modelled"),
 }
 CLAIMED.update({
- "C18": ("bounded model checking: for every container built by <=3 (quick) / <=4 (thorough) record insertions through each of 8 insertion paths, with symbolic identifiers (all aliasing patterns) and 6 spellings of the query name, z3 shows get_record/get_records/records agree with a scan of the record list on every path of the real code", "4/C18",
+ "C18": ("bounded model checking: for every container built by <=3 (quick) / <=4 (thorough) record insertions through each of 8 insertion paths, with symbolic identifiers (all aliasing patterns) and 6 spellings of the query name, z3 shows get_record/get_records/records agree with a scan of the record list on every path of the real code; further obligations: derived containers queried with the spellings they print themselves, one prefix bound to three URIs arriving in 4 orders, and look-up -> change of meaning -> look-up histories", "4/C18",
          "bounds: record count, |local|<=2, menus of record kinds/spellings per position (evidence lists them); set/hash order not modelled"),
- "C08": ("bounded model checking of unified(): all documents of <=3 top-level records / bundle of <=2 from 10 record shapes with symbolic identifiers and values; z3 decides exception-iff-conflict, one record per (identifier, kind), union of attributes, order, idempotence, source unchanged on every path", "4/C08",
+ "C08": ("bounded model checking of unified(): all documents of <=3 top-level records / bundle of <=2 from 10 record shapes with symbolic identifiers and values; z3 decides exception-iff-conflict, one record per (identifier, kind), union of attributes, order, idempotence, source unchanged on every path, also after 0-3 look-ups of absent identifiers", "4/C08",
          "bounds: record counts, shapes, |local|<=2; datetimes from a catalogue; two defects found were repaired (fix: commits)"),
- "C04": ("bounded model checking of ==: for all pairs (and triples) of documents in bounds z3 shows d1==d2, d2==d1, != and record/bundle equality coincide with an independent set-based content equivalence; content-preserving transformations give equal documents; hash agreement checked on every replayed witness", "4/C04",
+ "C04": ("bounded model checking of ==: for all pairs (and triples) of documents in bounds z3 shows d1==d2, d2==d1, != and record/bundle equality coincide with an independent set-based content equivalence; content-preserving transformations give equal documents; documents spelling names with the same prefix:local text under a symbolic other URI and values sharing one URI text (qualified name / anyURI / string) are told apart; hash agreement checked on every replayed witness", "4/C04",
          "bounds: <=2 (quick) / <=3 records per side, bundles of <=1/2 records; ints unbounded symbolic; stub: str(record) for logger.debug"),
- "C05": ("bounded model checking of record normal form: 18 kinds x 4 entry paths x presence masks x every representation of each formal argument; second-value guard for every formal attribute; Literal(lexical, native xsd type) vs native value; set_time; asserted types - z3 decides name aliasing and value equality on every path", "4/C05",
+ "C05": ("bounded model checking of record normal form: 18 kinds x 4 entry paths x presence masks x every representation of each formal argument; second-value guard for every formal attribute, also for two values inside one call; subtype factories with caller-supplied prov:type; Literal(lexical, native xsd type) vs native value; set_time; asserted types - z3 decides name aliasing and value equality on every path", "4/C05",
          "bounds: one record + one follow-up call, |local|<=2; xsd:double/dateTime/boolean lexicals and times from catalogues (dateutil/float conversions run concretely); ints via contract int(str(n))==n; not claimed: multi-entity membership compatibility path"),
- "C12": ("bounded model checking of state isolation: after each of 9 deriving operations a heap check shows no mutable container is reachable from both sides, and for each of 6 follow-up mutations on either side z3-decided comparison shows the other side's content, order, namespaces and default namespace unchanged, on every path", "4/C12",
+ "C12": ("bounded model checking of state isolation: after each of 13 deriving operations (incl. re-adding own records, update(self), bundle with own default namespace; one text deserialised twice on replay) a heap check shows no mutable container is reachable from both sides, and for each of 6 follow-up mutations on either side z3-decided comparison shows the other side's content, order, namespaces and default namespace unchanged, on every path", "4/C12",
          "bounds: source of 2 records (+bundle of 2), |local|<=2, symbolic mutation operands; the shared NamespaceManager of unified() was found and repaired (fix: commit)"),
  "C09": ("bounded model checking of flattened/update/add_bundle/bundle: for sequences of 1-2 (quick) / 3 (thorough) operations on two documents with symbolic default namespaces, prefix URIs and bundle identifiers, z3 shows the multiset identities on strict URI-level content, the refusal cases and 'other unchanged' on every path", "4/C09",
          "bounds: 2 records per document (+1 bundle record), |uri|<=3..4; first document's URIs fixed, second document's symbolic; structural choices enumerated as shards (pairwise-covering subset for two-step sequences in quick)"),
- "C01": ("bounded model checking of decode(encode(d)) at PROV-JSON container level with symbolic contents (all value kinds, name classes, namespace modes, 18 kinds x masks, repeated identifiers, bundles), z3 deciding strict equality on every path; each path witness is then serialised to real JSON text under all 8 dump options and read back on the unmodified build", "4/C01",
+ "C01": ("bounded model checking of decode(encode(d)) at PROV-JSON container level with symbolic contents (all value kinds, name classes, namespace modes, 18 kinds x masks, repeated identifiers, bundles, sibling bundles binding one prefix to symbolic URIs, empty bundles), z3 deciding strict equality on every path; each path witness is then serialised to real JSON text under all 8 dump options and read back on the unmodified build", "4/C01",
          "container level is for-all within bounds; the json text layer (C code) is crossed with one solver-chosen representative per path plus float/datetime catalogues; two known findings (namespace-URI/prefix ambiguity, bundle shadowing a document prefix)"),
  "C10": ("an independent PROV-JSON reader written from the specification is run symbolically on the emitted container (contents symbolic) and must recover the same strict content and accept the structure; on replay the real text under all dump options is read by the same reader", "4/C10",
          "JSON: for-all at container level within bounds + text on witnesses; XML: the writer's paths are exhausted symbolically against an etree recorder and each witness is written by real lxml and read by an independent xml.etree-based reader (structure rules, prov:ref, child order); readers share no code with prov"),
  "C02": ("path-complete exploration of the real PROV-XML writer (serialize_bundle/_derive_record_label run symbolically against an etree recorder, so the solver picks contents reaching every content-dependent branch: empty text, 'prov:'-prefixed text, subtype values, time attributes ...) over the C01 document space x force_types; every path witness is serialised with real lxml, read back and compared strictly on the unmodified build", "4/C02",
          "PATH_COMPLETE: one solver-chosen representative per writer path crosses lxml; reader paths are exercised on those witnesses only; five XML defects found were repaired (fix: commits); one known finding (bundle shadowing a document prefix)"),
- "C06": ("(i) SMT kernel: for every string of <=8 (quick) / <=16 (thorough) code points the literal printed by the real escaping code is accepted by a transducer of the PROV-N STRING_LITERAL grammar and denotes the source string - one z3 query per call site, all strings at once; (ii) path-complete exploration of get_provn() over the C01 document space, each path's text parsed by an independent recursive-descent PROV-N parser (W3C grammar) and compared strictly", "4/C06",
+ "C06": ("(i) SMT kernel: for every string of <=8 (quick) / <=16 (thorough) code points the literal printed by the real escaping code is accepted by a transducer of the PROV-N STRING_LITERAL grammar and denotes the source string - one z3 query per call site, all strings at once; (ii) path-complete exploration of get_provn() over the C01 document space and over print -> modify -> print histories, each path's text parsed by an independent recursive-descent PROV-N parser (W3C grammar) and compared strictly", "4/C06",
          "kernel: for-all within the length bound; expressions: one solver-chosen representative per path (text is pinned before parsing); floats/datetimes from catalogues; PROV-N-inexpressible records (identified/attributed specialization, alternate, membership, mention) excluded"),
  "C15": ("(i) SMT kernels: for every identifier / label / attribute value / attribute name / URI of <=N code points, the label and URL strings the real prov.dot code passes to pydot are single well-formed DOT IDs (Graphviz scanner rules for quoted strings; HTML-like labels whose markup skeleton is exactly the template's and whose entity-decoded data is exactly the source) - one z3 query per call site covering all strings; (ii) path-complete exploration of prov_to_dot over documents x 16 option combinations x directions, each witness rendered by real pydot and parsed by Graphviz (dot -Tdot_json) and checked for nodes/clusters/edge paths/annotations", "4/C15",
          "kernels: for-all within N (quoted 6/12, HTML 3/6); structure: one representative per path, Graphviz 2.43 as acceptance oracle; hostile label/value texts from a catalogue; one known finding (top-level node drawn inside a bundle cluster)"),
